@@ -532,9 +532,26 @@ HUGE_FLOAT_PROGRAMS = [
 ]
 
 
+# a copy shares no mutable state with its original — the iteration cursor included: a loop (the compiler's snapshot is a
+# clone), an assigned copy, a value read from a field or passed as an argument, each left early, then iterated again
+CURSOR_PROGRAMS = [
+    ("fn first(r: range) -> int { for i in r { return i; } 0 - 1 }\n"
+     "fn main() {\n    let r = 0..5;\n    for i in r { if i == 1 { break; } }\n    for i in r { print(i); }\n    println(\"\");\n"
+     "    let q = r;\n    for i in q { if i == 2 { break; } }\n    for i in r { print(i); }\n    for i in q { print(i); }\n    println(\"\", r == q);\n"
+     "    println(first(r), first(r));\n    for i in r { print(i); }\n    println(\"\");\n"
+     "    let s = 0..6;\n    s.start = 3;\n    for i in s { print(i); }\n    println(\"\", s == 3..6);\n"
+     "    let o = new { r: 1..4, w: \"abcd\", l: [7, 8, 9] };\n    for i in o.r { break; }\n    for c in o.w { break; }\n    for x in o.l { break; }\n"
+     "    for i in o.r { print(i); }\n    for c in o.w { print(c); }\n    for x in o.l { print(x); }\n    println(\"\");\n"
+     "    let w = \"xyz\";\n    for c in w { if c == \"y\" { break; } }\n    for c in w { print(c); }\n    let v = w;\n    for c in v { break; }\n    for c in w { print(c); }\n    println(\"\");\n"
+     "    for i in r { for j in r { print(i * 10 + j, \"\"); if j == 1 { break; } } if i == 1 { break; } }\n    println(\"\");\n}",
+     "01234\n0123401234 true\n0 0\n01234\n345 true\n123abcd789\nxyzxyz\n0 1 10 11 \n"),
+]
+
+
 def check_huge_floats(ctx):
-    go = core.go_lines("run", [f"(run (main {G.hexs(src)}))" for src, _ in HUGE_FLOAT_PROGRAMS], timeout=300)
-    for (src, want), g in zip(HUGE_FLOAT_PROGRAMS, go):
+    progs = HUGE_FLOAT_PROGRAMS + CURSOR_PROGRAMS
+    go = core.go_lines("run", [f"(run (main {G.hexs(src)}))" for src, _ in progs], timeout=300)
+    for (src, want), g in zip(progs, go):
         ctx.count(case_key=src, nontrivial=True)
         rep = {"kind": "program", "source": src}
         if g.startswith(("CRASH", "HANG")):
@@ -550,7 +567,9 @@ def check_huge_floats(ctx):
             out = core.unhex(kv["out"]) if "out" in kv else ""
             if not w or w[0] != "OK" or out != want:
                 ctx.violation(dict(rep, backend=be, go=parts.get(be, "")[:400]),
-                              f"{be}: to_json / parse_json of floats beyond the int64 range does not give an equal value ({out!r}, expected {want!r})")
+                              f"{be}: " + ("to_json / parse_json of floats beyond the int64 range does not give an equal value" if (src, want) in HUGE_FLOAT_PROGRAMS else
+                                           "a copy (loop snapshot, assignment, field read, argument) shares iteration state with its original")
+                              + f" ({out!r}, expected {want!r})")
 
 
 def run_known(ctx):
